@@ -27,13 +27,52 @@ ASSUMPTIONS = ["onnx.checker.check_model(full_check=True) (onnx 1.22) and vf.wf 
                "refined static dim contradicts the runtime shape"]
 
 
+# rewrite() with user rules is part of the statement ("optimize, rewrite and fold_constants ... every domain used has an
+# opset import"): the C07 enumeration (18 generated rules - among them a replacement in a domain the host does not
+# import, replacement initializers, as_function extraction - x hosts with k<=3 instances in main graph / If / Loop /
+# function bodies) is executed here too and judged for totality, validity and interface only.
+_RW_KINDS = {"raised": "raises", "invalid-checker": "invalid", "invalid-wf": "invalid", "signature": "interface"}
+
+
 def plan(tier, seed):
+    from vf.props import c07 as _c07
     items, st = optplan.plan_c03(tier)
+    rw, st7 = _c07.plan(tier, seed)
+    items = items + [{"fam": "rw_rule", "c07": it} for it in rw]
+    st = dict(st)
+    for k in ("states", "transitions", "leaves"):
+        if k in st and k in st7:
+            st[k] = st[k] + st7[k]
+    st["rw_rule_leaves"] = len(rw)
+    st["rw_rule_dimensions"] = st7.get("dimensions")
     return items, st
+
+
+def _execute_rw(item):
+    from vf.props import c07 as _c07
+    r = _c07.execute(item["c07"])
+    out = {"nkey": "rw_rule|" + str(r.get("nkey")), "counts": {"rw_rule_api_runs": (r.get("counts") or {}).get("api_runs", 0)}}
+    if r["status"] == "skip":
+        out.update(status="skip", skip="rw:" + r["skip"], outcome="rw-skip")
+        return out
+    viols = []
+    for v in r.get("viols", []):
+        _, kind, rule, place = v["key"].split("|", 3)
+        if kind in _RW_KINDS:
+            viols.append({"key": f"C04|rewrite-{_RW_KINDS[kind]}|{rule}|{place}", "detail": v["detail"]})
+    fired = str(r.get("outcome", "")).startswith(("fired", "viol"))
+    out["outcome"] = ("rw-viol:" + "+".join(sorted({v["key"].split("|")[1] for v in viols}))) if viols else \
+        ("rw-valid-changed" if fired else "rw-valid-unchanged")
+    out["status"] = "viol" if viols else "ok"
+    out["viols"] = viols
+    out["show"] = r.get("show", "")[:700]
+    return out
 
 
 worker_init = _c03.worker_init
 def on_crash(item, res):
+    if item.get("fam") == "rw_rule":
+        return None
     return _c03._crash_triage(item, "vf.props.c04")
 
 
@@ -63,6 +102,8 @@ def _override_component(item, built, name):
 
 
 def execute(item):
+    if item.get("fam") == "rw_rule":
+        return _execute_rw(item)
     _c03.watchdog(True)
     try:
         return _execute(item)
